@@ -71,7 +71,7 @@ func c13Handlers(c *vk.Ctx) {
 			add(base, 4, 1, k, vk.Pick(c, 0, 1), true, vk.Pick(c, 60.0, 300.0))
 		}
 	}
-	c.P.Rule = "E1: real handler compositions (9 bases: Default, Cache, Router, merges of them, SQLite in memory, the composition of cmd/mocrelay, SQLite whose bulk-insert goroutine has stopped so that its 2-slot queue fills up) x wrappers (none, MaxSubscriptions, unique filters, NIP-11 chain, Prometheus, a 3-deep stack; every provided middleware singly over the router; four wrappers configured to REFUSE the EVENT, the REQs/COUNT or everything, so that the middleware's own rejection is the reply in flight, with the peer stalling after 0-3 reads) serving the client history [REQ, EVENT, COUNT, CLOSE, REQ] while a second connection publishes; the session is ended by an environment task that is enabled from the start and whose step costs nothing wherever it is taken (every cut point of every explored schedule is reached), by cancel with a draining or stalled peer, or by closing the inbound channel; schedules: complete up to the stated deviation bound (any non-default scheduling choice counts one) or delay bound per job; oracle at quiescence: ServeNostr returned, no task spawned under the session alive, router registry and Prometheus gauges back to their previous values"
+	c.P.Rule = "E1: real handler compositions (10 bases: Default, Cache, Router, merges of them, SQLite in memory, the composition of cmd/mocrelay, SQLite whose bulk-insert goroutine has stopped so that its 2-slot queue fills up, a merge with two default handlers so that every REQ is answered by two CLOSED) x wrappers (none, MaxSubscriptions, unique filters, NIP-11 chain, Prometheus, a 3-deep stack; every provided middleware singly over the router; four wrappers configured to REFUSE the EVENT, the REQs/COUNT or everything, so that the middleware's own rejection is the reply in flight, with the peer stalling after 0-3 reads) serving the client history [REQ, EVENT, COUNT, CLOSE, REQ] while a second connection publishes; the session is ended by an environment task that is enabled from the start and whose step costs nothing wherever it is taken (every cut point of every explored schedule is reached), by cancel with a draining or stalled peer, or by closing the inbound channel; schedules: complete up to the stated deviation bound (any non-default scheduling choice counts one) or delay bound per job; oracle at quiescence: ServeNostr returned, no task spawned under the session alive, router registry and Prometheus gauges back to their previous values"
 	res := runJobs(c, jobs)
 	for i, r := range res {
 		if i%40 == 0 {
